@@ -83,7 +83,7 @@ CLAIMS = {
          "corollary of the C03 simulation, which covers the except-branch and the empty-array path). "
          "Tie: real failures (raising iterables, wrong shape/rank, unconvertible items, RLIMIT_FSIZE at "
          "chunk boundaries +-1, mid-element, mid-row) run against the implementation and the model.",
-         "Coq proof over an executable model with fault plans + in-Coq differential evaluation with kernel-enforced write failures",
+         "Coq proof over an executable model with fault plans + recovery order proved against control skeletons translated from source + in-Coq differential evaluation with kernel-enforced write failures",
          "6.C09"),
  'C10': ("kernel-checked for every start state, atom, number of items, failure position and kind (raising "
          "iterable, wrong atom/rank, unconvertible item, index overflow decided by index_max of the index "
@@ -92,7 +92,7 @@ CLAIMS = {
          "wf_ragged and opens (C10_failed_append, corollary of the C04 simulation which covers the "
          "except-branch). Tie: real failures incl. RLIMIT_FSIZE on the values file and on the indices "
          "file and OverflowError with int8/uint8 indices, run against implementation and model.",
-         "Coq proof over an executable model with fault plans + in-Coq differential evaluation with kernel-enforced write failures",
+         "Coq proof over an executable model with fault plans + recovery order proved against control skeletons translated from source + in-Coq differential evaluation with kernel-enforced write failures",
          "6.C10"),
  'C11': ("kernel-checked over the models: in mode 'r' (a field of the state, so all ways of obtaining it "
          "and all histories of mode switches are covered) every mutating operation -- assignment, append, "
